@@ -71,13 +71,16 @@ def pyfunc(tag):
     }[tag]
 
 
-def sample_params_of(spec):
-    """the sample_params dict of one metric spec {'tag', 'w', 'ids', 'a'}"""
+def sample_params_of(spec, index=None):
+    """the sample_params dict of one metric spec {'tag', 'w', 'ids', 'a'}.
+    With `index` (a permuted, non-default pandas index) the array-valued parameters are passed as
+    pandas Series carrying that index: rows must still be paired by position, never by label."""
     sp = {}
+    wrap = (lambda a: pd.Series(a, index=index)) if index is not None else (lambda a: a)
     if spec.get("w") is not None:
-        sp["sample_weight"] = np.array([float(F(x)) for x in spec["w"]])
+        sp["sample_weight"] = wrap(np.array([float(F(x)) for x in spec["w"]]))
     if spec.get("ids") is not None:
-        sp["ids"] = np.array([float(F(x)) for x in spec["ids"]])
+        sp["ids"] = wrap(np.array([float(F(x)) for x in spec["ids"]]))
     if spec.get("a") is not None:
         sp["a"] = [float(F(x)) for x in spec["a"]]  # a plain list on purpose (container glue)
     return sp
